@@ -44,7 +44,10 @@ def scan_fns(text):
             elif it.kind in ('impl', 'mod', 'trait') and it.body_open >= 0:
                 nm = it.name or '?'
                 if it.kind == 'impl' and it.trait:
-                    nm = '<%s as %s>' % (it.name, it.trait)
+                    tf = it.trait_full or it.trait
+                    # same spelling as gen.py's function ids: generics kept, whitespace removed, path prefix dropped
+                    tf = re.sub(r'^(\w+::)+', '', tf)
+                    nm = '<%s as %s>' % (it.name, tf if '<' in tf else it.trait)
                 walk(it.body_open + 1, it.end - 1, prefix + nm + '::')
             elif it.kind == 'other' and it.body_open >= 0 and re.match(r'\s*verus\s*!', it.header):
                 walk(it.body_open + 1, it.end - 1, prefix)
